@@ -1,6 +1,9 @@
 /-
 C05 — Multilevel estimator = sum of per-level means over exactly the simulated samples.
 Property theorems about RpylibModel/Model/Mlmc.lean and RpylibModel/Model/MlmcCv.lean; they live in the lemma files
-imported here: Lemmas/C05Core.lean (payoff arrays and counters, every history), Lemmas/C05Cv.lean (control-variate path).
+imported here: Lemmas/C05Core.lean (payoff arrays and counters, every history), Lemmas/C05Cv.lean (control-variate path),
+Lemmas/C05Iter.lean (what the criteria receive at every iteration).
 -/
 import RpylibModel.Proofs.Lemmas.C05Core
+import RpylibModel.Proofs.Lemmas.C05Cv
+import RpylibModel.Proofs.Lemmas.C05Iter
